@@ -389,7 +389,7 @@ fn run_child(bin: &str, turns: u64, seed: u64, mode: &str, stack: usize) -> Chil
         c
     };
     // generous wall-clock watchdog per child: its firing is *inconclusive*, never a verdict
-    let limit = std::time::Duration::from_secs(std::env::var("AVM_CHILD_TIMEOUT_S").ok().and_then(|s| s.parse().ok()).unwrap_or(600));
+    let limit = std::time::Duration::from_secs(std::env::var("AVM_CHILD_TIMEOUT_S").ok().and_then(|s| s.parse().ok()).unwrap_or(1500));
     let started = std::time::Instant::now();
     let child = cmd.stdin(Stdio::null()).stdout(Stdio::piped()).stderr(Stdio::piped()).spawn();
     let mut child = match child {
@@ -436,7 +436,7 @@ pub fn c20(cfg: &Cfg) -> i32 {
     }
     let survive_l: Vec<u64> = match cfg.tier {
         Tier::Quick => vec![150_000, 400_000],
-        Tier::Thorough => vec![150_000, 2_000_000, 8_000_000],
+        Tier::Thorough => vec![150_000, 1_000_000, 3_000_000],
     };
     let vm_l: [u64; 3] = [1000, 50_000, 400_000];
     let seeds: Vec<u64> = match cfg.tier {
@@ -540,8 +540,8 @@ pub fn c20(cfg: &Cfg) -> i32 {
     let rep = Report {
         evaluations_counter: "children_run",
         rule: "W13: child processes play L legal capture-free turns from an open position (steps from valid_actions_no_rep(), repetition legality kept by the harness' exact position set and spot-checked against valid_actions() every 10 000 turns; hash_history().len() must equal L+1), then query (action lists, result, can_pass, has_move, printing, hash, ==, history len/iter/head/tail), clone, take_action + pass, and drop the state while a clone of the state at turn L/2 is still alive, then query mid-turn states at steps 1-3 incl. a pass at step 3 and a state with a pending push (a `log` logger at Trace level that formats every record is installed), then make a capture (the engine starts a fresh history and lets go of the old one inside take_action), then query that older state and discard it - in the thread-mode children while the owning 2 MiB thread unwinds from a deliberate panic (Debug formatting is not exercised: the derived Debug of a linked list is recursive by construction and is not one of the queries the property lists). Observer 1: the whole run on a thread with the default 2 MiB stack must exit 0. Observer 2: on the main thread with an unlimited stack the growth of VmStk over the query/clone/drop block at L = 400 000 must not exceed the growth at L = 1 000 by 128 kB. Observer 3: 2-4 threads that are the only owners of one long history drop it at the same instant (spin barrier): children with 300 000-entry histories on 2 MiB threads must survive, and drop probes must show no growth of the stack span between 500 and 4 000 nodes. Observers 1-2 and the children of 3 run in the monitor profile and in plain release. distinct_nontrivial = distinct (L, seed, profile, observer) child runs that completed.".into(),
-        assumptions: vec!["'for all lengths' is restated as L up to 4*10^5 (quick) / 2*10^6 (thorough) (quick: 4*10^5, thorough: 8*10^6) plus no measurable stack growth between L = 10^3 and L = 4*10^5".into(), "a child that dies for another reason (OOM, external signal) makes the run inconclusive".into()],
-        floors: vec![floor("survival_runs_held", 0, 0), floor("vmstk_comparisons", 1, 1), floor("simultaneous_probe_drop_rounds", 500, 5000), floor("concurrent_drop_runs_held", 0, 0), floor("runs_with_capture_after_long_stretch", 4, 8), floor("runs_with_last_owner_dropped_during_unwinding", 2, 4), floor("runs_with_pending_push_state_queried", 4, 8), floor("longest_history_reached", 400_001, 8_000_001)],
+        assumptions: vec!["'for all lengths' is restated as L up to 4*10^5 (quick) / 2*10^6 (thorough) (quick: 4*10^5, thorough: 3*10^6) plus no measurable stack growth between L = 10^3 and L = 4*10^5".into(), "a child that dies for another reason (OOM, external signal) makes the run inconclusive".into()],
+        floors: vec![floor("survival_runs_held", 0, 0), floor("vmstk_comparisons", 1, 1), floor("simultaneous_probe_drop_rounds", 500, 5000), floor("concurrent_drop_runs_held", 0, 0), floor("runs_with_capture_after_long_stretch", 4, 8), floor("runs_with_last_owner_dropped_during_unwinding", 2, 4), floor("runs_with_pending_push_state_queried", 4, 8), floor("longest_history_reached", 400_001, 3_000_001)],
         level: "exploration",
         exhaustive: None,
         extra,
